@@ -1,6 +1,6 @@
 #!/bin/sh
 # runs the thorough tier (quick rules + self-test variants, strict about vanished anchors) for every property; prints one line per property
 for i in 01 02 03 04 05 06 07 08 09 10 11 12 13 14 15 16 17 18 19 20; do
-  VERIF_SELFTEST_STRICT=1 VERIF_EVIDENCE_DIR=/tmp/st_evidence /verif/check C$i --tier thorough 2>&1 | grep -E "^selftest|SELFTEST-PROBLEM|VIOLATION|ANALYSIS-ERROR"
+  VERIF_SELFTEST_STRICT=1 VERIF_EVIDENCE_DIR=/tmp/st_evidence "$(dirname "$0")/../check" C$i --tier thorough 2>&1 | grep -E "^selftest|SELFTEST-PROBLEM|VIOLATION|ANALYSIS-ERROR"
 done
 rm -rf /tmp/st_evidence
